@@ -251,7 +251,8 @@ Lemma target_body_spec c nw tks k tok fee max exp target fn args user relayer au
   target_body c nw tks (fwd_addr c k) target fn args (push_frame ts) = Ok (ent, tks') ->
   ent = expected_entry fn args /\ tks' = tks.
 Proof.
-  intros Hwf Hen H. unfold target_body in H. cbn [wf_call] in Hwf. unfold expected_entry, is_script.
+  intros Hwf Hen H. unfold target_body in H. cbn [wf_call] in Hwf.
+  apply andb_true_iff in Hwf. destruct Hwf as [_ Hwf]. unfold expected_entry, is_script.
   assert (Hen' : map tk_entry (push_frame ts) = au) by (rewrite push_frame_entries; exact Hen).
   destruct args as [|x1 r1]; [discriminate|]. destruct x1 as [a1|v1].
   2:{ destruct r1; [|discriminate]. destruct (N.eqb fn F_HIT) eqn:E; [|discriminate]. inversion H; subst.
@@ -280,8 +281,113 @@ Proof.
     apply scripted_fail in H. destruct H as [-> ->]. split; reflexivity.
 Qed.
 
-Definition recipient_of (c : cfg) (k : kind) (relayer : addr) : addr :=
-  match k with Permissioned => fwd_addr c k | Permissionless => relayer end.
+(* ---- spend_allowance for any amount ---- *)
+Lemma spend_allowance_zero hc nw t o s t' : spend_allowance hc nw t o s 0 = Ok t' -> t' = t.
+Proof.
+  unfold spend_allowance. cbn. destruct (allowance_data nw t o s) as [a l].
+  destruct (a <? 0); [discriminate|]. intros H. inversion H. reflexivity.
+Qed.
+
+(* ---- what the target call does to the token states ---- *)
+Record target_post (c : cfg) (nw : Z) (tks tks' : list (addr * tokst)) (target : addr) (fn : N)
+  (args : list atom) : Prop := {
+  tp_total : forall t, t_total (get_tokm tks' t) = t_total (get_tokm tks t);
+  tp_bal : forall t h, balance (get_tokm tks' t) h =
+             balance (get_tokm tks t) h + tgt_delta (tgt_moves c target fn args) target t h;
+  tp_alw : forall t o s, ad nw (alw_get (get_tokm tks' t) o s) =
+             tgt_alw (tgt_moves c target fn args) target t o s (ad nw (alw_get (get_tokm tks t) o s));
+  tp_amt : forall from to amt sp, tgt_moves c target fn args = Some (from, to, amt, sp) -> 0 <= amt
+}.
+
+Lemma target_post_refl c nw tks target fn args :
+  tgt_moves c target fn args = None -> target_post c nw tks tks target fn args.
+Proof.
+  intros E. constructor.
+  - reflexivity.
+  - intros t h. rewrite E. cbn [tgt_delta]. lia.
+  - intros t o s. rewrite E. reflexivity.
+  - intros from to amt sp H. congruence.
+Qed.
+
+Lemma tgt_moves_not_token c target fn args : memb target (c_tokens c) = false -> tgt_moves c target fn args = None.
+Proof. unfold tgt_moves. intros ->. reflexivity. Qed.
+
+Lemma target_post_one c nw tks target fn args t2 mv :
+  tgt_moves c target fn args = mv ->
+  t_total t2 = t_total (get_tokm tks target) ->
+  (forall h, balance t2 h = balance (get_tokm tks target) h + tgt_delta mv target target h) ->
+  (forall o s, ad nw (alw_get t2 o s) = tgt_alw mv target target o s (ad nw (alw_get (get_tokm tks target) o s))) ->
+  (forall from to amt sp, mv = Some (from, to, amt, sp) -> 0 <= amt) ->
+  target_post c nw tks (alist_set target t2 tks) target fn args.
+Proof.
+  intros Emv Ht Hb Ha Hamt. constructor; [| | |rewrite Emv; exact Hamt]; intros t; intros; rewrite get_tokm_set, ?Emv;
+    destruct (N.eqb t target) eqn:E.
+  - apply N.eqb_eq in E. subst t. exact Ht.
+  - reflexivity.
+  - apply N.eqb_eq in E. subst t. apply Hb.
+  - unfold tgt_delta, transfer_delta. destruct mv as [[[[f to] amt] sp]|]; [rewrite E|]; lia.
+  - apply N.eqb_eq in E. subst t. apply Ha.
+  - unfold tgt_alw. destruct mv as [[[[f to] amt] [sp|]]|]; try reflexivity. rewrite E. reflexivity.
+Qed.
+
+Lemma token_target_spec c nw tks F target fn args ts tks' :
+  1 <= min_temp_ttl (c_host c) -> memb target (c_tokens c) = true ->
+  token_target c nw tks F target fn args ts = Ok tks' ->
+  tgt_moves c target fn args <> None /\ target_post c nw tks tks' target fn args /\ (toks_inv tks -> toks_inv tks').
+Proof.
+  intros Hm Ht H. unfold token_target in H.
+  destruct args as [|x1 r1]; [discriminate|]. destruct x1 as [a1|v1]; [|discriminate].
+  destruct r1 as [|x2 r2]; [discriminate|]. destruct x2 as [a2|v2]; [|discriminate].
+  destruct r2 as [|x3 r3]; [discriminate|]. destruct x3 as [a3|v3].
+  - (* transfer_from(a1 = spender, a2 = from, a3 = to, amt) *)
+    destruct r3 as [|x4 r4]; [discriminate|]. destruct x4 as [a4|amt]; [discriminate|].
+    destruct r4; [|discriminate]. destruct (N.eqb fn F_TRANSFER_FROM) eqn:Ef; [|discriminate].
+    assert (Emv : tgt_moves c target fn [AA a1; AA a2; AA a3; AI amt] = Some (a2, a3, amt, Some a1)).
+    { unfold tgt_moves. rewrite Ht, Ef. reflexivity. }
+    destruct (require_auth true (Some F) a1 _ ts); cbn [bind] in H; [|discriminate].
+    destruct (spend_allowance (c_host c) nw (get_tokm tks target) a2 a1 amt) as [t1|] eqn:Es; cbn [bind] in H; [|discriminate].
+    destruct (update_transfer t1 a2 a3 amt) as [t2|] eqn:Eu; cbn [bind] in H; [|discriminate].
+    inversion H; subst tks'. clear H.
+    destruct (update_transfer_spec _ _ _ _ _ Eu) as [Hge [_ [Ht2 [Ha2 Hb2]]]].
+    split; [rewrite Emv; discriminate|].
+    destruct (Z.eq_dec amt 0) as [Hz|Hz].
+    + subst amt. apply spend_allowance_zero in Es. subst t1. split; [|intros Hi].
+      * apply (target_post_one _ _ _ _ _ _ _ _ Emv).
+        -- exact Ht2.
+        -- intros h. rewrite Hb2. unfold tgt_delta, transfer_delta. rewrite N.eqb_refl. lia.
+        -- intros o s. rewrite (alw_get_same_alw _ _ _ _ Ha2). unfold tgt_alw. rewrite andb_false_r. reflexivity.
+        -- intros f0 t0 a0 s0 Hq. inversion Hq. lia.
+      * apply toks_inv_set; [exact Hi|]. apply (alw_inv_same_alw _ _ Ha2). apply Hi.
+    + assert (Hp : 0 < amt) by lia.
+      pose proof (spend_allowance_spec _ _ _ _ _ _ _ Hm Hp Es) as P. split; [|intros Hi].
+      * apply (target_post_one _ _ _ _ _ _ _ _ Emv).
+        -- rewrite Ht2. apply (sp_total _ _ _ _ _ _ P).
+        -- intros h. rewrite Hb2. rewrite (balance_same_bal _ _ h (sp_bal _ _ _ _ _ _ P)).
+           unfold tgt_delta, transfer_delta. rewrite N.eqb_refl. lia.
+        -- intros o s. rewrite (alw_get_same_alw _ _ _ _ Ha2). unfold tgt_alw. rewrite N.eqb_refl. cbn [andb].
+           assert (E0 : (0 <? amt) = true) by (apply Z.ltb_lt; exact Hp). rewrite E0, andb_true_r.
+           destruct (N.eqb o a2 && N.eqb s a1) eqn:Eos.
+           ++ apply andb_true_iff in Eos. destruct Eos as [Eo Es']. apply N.eqb_eq in Eo. apply N.eqb_eq in Es'. subst o s.
+              apply (sp_cell _ _ _ _ _ _ P).
+           ++ rewrite (sp_other _ _ _ _ _ _ P) by exact Eos. reflexivity.
+        -- intros f0 t0 a0 s0 Hq. inversion Hq. lia.
+      * apply toks_inv_set; [exact Hi|]. apply (alw_inv_same_alw _ _ Ha2). apply (sp_inv _ _ _ _ _ _ P). apply Hi.
+  - (* transfer(a1 = from, a2 = to, v3 = amt) *)
+    destruct r3; [|discriminate]. destruct (N.eqb fn F_TRANSFER) eqn:Ef; [|discriminate].
+    assert (Emv : tgt_moves c target fn [AA a1; AA a2; AI v3] = Some (a1, a2, v3, None)).
+    { unfold tgt_moves. rewrite Ht, Ef. reflexivity. }
+    destruct (require_auth true (Some F) a1 _ ts); cbn [bind] in H; [|discriminate].
+    destruct (update_transfer (get_tokm tks target) a1 a2 v3) as [t2|] eqn:Eu; cbn [bind] in H; [|discriminate].
+    inversion H; subst tks'. clear H.
+    destruct (update_transfer_spec _ _ _ _ _ Eu) as [Hge [_ [Ht2 [Ha2 Hb2]]]].
+    split; [rewrite Emv; discriminate|]. split; [|intros Hi].
+    + apply (target_post_one _ _ _ _ _ _ _ _ Emv).
+      * exact Ht2.
+      * intros h. rewrite Hb2. unfold tgt_delta, transfer_delta. rewrite N.eqb_refl. lia.
+      * intros o s. rewrite (alw_get_same_alw _ _ _ _ Ha2). reflexivity.
+      * intros f0 t0 a0 s0 Hq. inversion Hq. subst. exact Hge.
+    + apply toks_inv_set; [exact Hi|]. apply (alw_inv_same_alw _ _ Ha2). apply Hi.
+Qed.
 
 (* what holds of every successful forward, whatever the target does *)
 Record forward_pre (c : cfg) (st : state) (k : kind) (tok : addr) (fee max exp : Z)
@@ -292,44 +398,35 @@ Record forward_pre (c : cfg) (st : state) (k : kind) (tok : addr) (fee max exp :
                     (mkf (fwd_addr c k) F_FORWARD (forward_args tok fee max exp target fn args user relayer))) au = true;
   fq_role : match k with Permissioned => memb relayer (c_executors c) = true | Permissionless => True end;
   fq_collect : collect_post c (now st) (al_of st k) (fwd_addr c k) (get_tok st tok) t'
-                 tok fee max exp user (recipient_of c k relayer) (approval_of k) au;
-  fq_target : memb target (c_targets c) = true
+                 tok fee max exp user (recipient_of c k relayer) (approval_of k) au
 }.
 
+(* [t1] = the fee token's state after the fee has been collected, before the target runs *)
 Record forward_post (c : cfg) (st st' : state) (k : kind) (tok : addr) (fee max exp : Z)
-  (target : addr) (fn : N) (args : list atom) (user relayer : addr) (au : list entry) (ret : Z) : Prop := {
-  fp_user_auth : existsb (fun e => covers_root e user
-                    (mkf (fwd_addr c k) F_FORWARD (user_args tok max exp target fn args))) au = true;
-  fp_relayer_auth : existsb (fun e => covers_root e relayer
-                    (mkf (fwd_addr c k) F_FORWARD (forward_args tok fee max exp target fn args user relayer))) au = true;
-  fp_role : match k with Permissioned => memb relayer (c_executors c) = true | Permissionless => True end;
+  (target : addr) (fn : N) (args : list atom) (user relayer : addr) (au : list entry) (ret : Z)
+  (t1 : tokst) : Prop := {
+  fp_pre : forward_pre c st k tok fee max exp target fn args user relayer au t1;
   fp_now : now st' = now st;
   fp_al : al st' = al st;
-  fp_other : forall t, t <> tok -> get_tok st' t = get_tok st t;
-  fp_collect : collect_post c (now st) (al_of st k) (fwd_addr c k) (get_tok st tok) (get_tok st' tok)
-                 tok fee max exp user (recipient_of c k relayer) (approval_of k) au;
-  fp_target : memb target (c_targets c) = true;
-  fp_logs : forall g, get_log (logs st') g =
-              if N.eqb g target then get_log (logs st) target ++ [expected_entry fn args] else get_log (logs st) g;
-  fp_ret : ret = Z.of_nat (length (get_log (logs st') target))
+  fp_tpost : target_post c (now st) (alist_set tok t1 (toks st)) (toks st') target fn args;
+  fp_target : if memb target (c_tokens c)
+              then tgt_moves c target fn args <> None /\ logs st' = logs st /\ ret = 0
+              else memb target (c_targets c) = true /\
+                   (forall g, get_log (logs st') g =
+                      if N.eqb g target then get_log (logs st) target ++ [expected_entry fn args]
+                      else get_log (logs st) g) /\
+                   ret = Z.of_nat (length (get_log (logs st') target))
 }.
-
-Lemma get_tok_set st tok t' t l a :
-  get_tok {| now := l; toks := alist_set tok t' (toks st); al := a; logs := logs st |} t =
-  if N.eqb t tok then t' else get_tok st t.
-Proof. unfold get_tok. cbn [toks]. rewrite aget_set. destruct (N.eqb t tok); reflexivity. Qed.
 
 (* the forward, opened up to the target call *)
 Lemma forward_open c st k tok fee max exp target fn args user relayer au st' ret :
   1 <= min_temp_ttl (c_host c) ->
   forward c st k tok fee max exp target fn args user relayer au = Ok (st', ret) ->
-  exists t' ts3 ent tks',
+  exists t' ts3 tks' l',
     forward_pre c st k tok fee max exp target fn args user relayer au t' /\
     map tk_entry ts3 = au /\
-    target_body c (now st) (alist_set tok t' (toks st)) (fwd_addr c k) target fn args (push_frame ts3) = Ok (ent, tks') /\
-    st' = {| now := now st; toks := tks'; al := al st;
-             logs := alist_set target (get_log (logs st) target ++ [ent]) (logs st) |} /\
-    ret = Z.of_nat (length (get_log (logs st) target ++ [ent])).
+    target_call c (now st) (alist_set tok t' (toks st)) (logs st) (fwd_addr c k) target fn args ts3 = Ok (tks', l', ret) /\
+    st' = {| now := now st; toks := tks'; al := al st; logs := l' |}.
 Proof.
   intros Hm. unfold forward.
   destruct (match k with Permissioned => memb relayer (c_executors c) | Permissionless => true end) eqn:Er;
@@ -338,10 +435,7 @@ Proof.
   destruct (require_auth false None user _ ts1) as [ts2|] eqn:E2; cbn [bind]; [|discriminate].
   destruct (collect_fee c (now st) (al_of st k) (fwd_addr c k) (get_tok st tok) tok fee max exp user _ (approval_of k) ts2)
     as [[t' ts3]|] eqn:E3; cbn [bind]; [|discriminate].
-  unfold target_call.
-  destruct (memb target (c_targets c)) eqn:Et; cbn [guard bind]; [|discriminate].
-  destruct (N.eqb target (fwd_addr c k)); cbn [negb guard bind]; [discriminate|].
-  destruct (target_body _ _ _ _ _ _ _ _) as [[ent tks']|] eqn:E4; cbn [bind]; [|discriminate].
+  destruct (target_call _ _ _ _ _ _ _ _ _) as [[[tks' l'] r]|] eqn:E4; cbn [bind]; [|discriminate].
   intros H. inversion H; subst st' ret. clear H.
   pose proof (require_auth_outer _ _ _ _ E1) as A1. rewrite entries_init in A1.
   pose proof (require_auth_outer _ _ _ _ E2) as A2.
@@ -350,24 +444,64 @@ Proof.
   assert (Hen2 : map tk_entry ts2 = au).
   { rewrite (require_auth_entries _ _ _ _ _ _ E2), (require_auth_entries _ _ _ _ _ _ E1). apply entries_init. }
   rewrite Hen2 in P. rewrite Hen2 in Pe.
-  exists t', ts3, ent, tks'. split; [|split; [exact Pe|split; [exact E4|split; reflexivity]]].
+  exists t', ts3, tks', l'. split; [|split; [exact Pe|split; [exact E4|reflexivity]]].
   constructor; auto; try (destruct k; [exact Er|exact I]); try (unfold recipient_of; destruct k; exact P).
+Qed.
+
+(* the target call, under [wf_call] *)
+Lemma target_call_spec c nw tks l k tok fee max exp target fn args user relayer au ts tks' l' ret :
+  1 <= min_temp_ttl (c_host c) ->
+  wf_call c (Forward k tok fee max exp target fn args user relayer au) = true ->
+  map tk_entry ts = au ->
+  target_call c nw tks l (fwd_addr c k) target fn args ts = Ok (tks', l', ret) ->
+  target_post c nw tks tks' target fn args /\
+  (if memb target (c_tokens c)
+   then tgt_moves c target fn args <> None /\ l' = l /\ ret = 0
+   else memb target (c_targets c) = true /\
+        (forall g, get_log l' g = if N.eqb g target then get_log l target ++ [expected_entry fn args] else get_log l g) /\
+        ret = Z.of_nat (length (get_log l' target))).
+Proof.
+  intros Hm Hwf Hen. unfold target_call. destruct (memb target (c_tokens c)) eqn:Et.
+  - destruct (token_target _ _ _ _ _ _ _ _) as [x|] eqn:E; cbn [bind]; [|discriminate].
+    intros H. inversion H; subst tks' l' ret. destruct (token_target_spec _ _ _ _ _ _ _ _ _ Hm Et E) as [A [B _]].
+    split; [exact B|]. auto.
+  - destruct (memb target (c_targets c)); cbn [guard bind]; [|discriminate].
+    destruct (N.eqb target (fwd_addr c k)); cbn [negb guard bind]; [discriminate|].
+    destruct (target_body _ _ _ _ _ _ _ _) as [[ent x]|] eqn:E; cbn [bind]; [|discriminate].
+    destruct (target_body_spec _ _ _ _ _ _ _ _ _ _ _ _ _ _ _ _ _ Hwf Hen E) as [-> ->].
+    intros H. inversion H; subst tks' l' ret. clear H.
+    split; [apply target_post_refl; apply tgt_moves_not_token; exact Et|].
+    split; [reflexivity|]. split.
+    + intros g. apply get_log_set.
+    + rewrite get_log_set, N.eqb_refl. reflexivity.
+Qed.
+
+Lemma target_call_inv c nw tks l F target fn args ts tks' l' ret :
+  1 <= min_temp_ttl (c_host c) ->
+  target_call c nw tks l F target fn args ts = Ok (tks', l', ret) -> toks_inv tks -> toks_inv tks'.
+Proof.
+  intros Hm. unfold target_call. destruct (memb target (c_tokens c)) eqn:Et.
+  - destruct (token_target _ _ _ _ _ _ _ _) as [x|] eqn:E; cbn [bind]; [|discriminate].
+    intros H. inversion H; subst. destruct (token_target_spec _ _ _ _ _ _ _ _ _ Hm Et E) as [_ [_ B]]. exact B.
+  - destruct (memb target (c_targets c)); cbn [guard bind]; [|discriminate].
+    destruct (N.eqb target F); cbn [negb guard bind]; [discriminate|].
+    destruct (target_body _ _ _ _ _ _ _ _) as [[ent x]|] eqn:E; cbn [bind]; [|discriminate].
+    intros H. inversion H; subst. eapply target_body_inv; eauto.
 Qed.
 
 Lemma forward_spec c st k tok fee max exp target fn args user relayer au st' ret :
   1 <= min_temp_ttl (c_host c) ->
   wf_call c (Forward k tok fee max exp target fn args user relayer au) = true ->
   forward c st k tok fee max exp target fn args user relayer au = Ok (st', ret) ->
-  forward_post c st st' k tok fee max exp target fn args user relayer au ret.
+  exists t1, forward_post c st st' k tok fee max exp target fn args user relayer au ret t1.
 Proof.
   intros Hm Hwf H.
-  destruct (forward_open _ _ _ _ _ _ _ _ _ _ _ _ _ _ _ Hm H) as [t' [ts3 [ent [tks' [Q [Hen [Hb [-> ->]]]]]]]].
-  destruct (target_body_spec _ _ _ _ _ _ _ _ _ _ _ _ _ _ _ _ _ Hwf Hen Hb) as [-> ->].
-  destruct Q as [Q1 Q2 Q3 Q4 Q5].
-  constructor; cbn [now al logs]; auto.
-  - intros t Hne. unfold get_tok. cbn [toks]. rewrite aget_set.
-    destruct (N.eqb t tok) eqn:E; [apply N.eqb_eq in E; contradiction|reflexivity].
-  - unfold get_tok at 2. cbn [toks]. rewrite aget_set, N.eqb_refl. exact Q4.
-  - intros g. apply get_log_set.
-  - rewrite get_log_set, N.eqb_refl. reflexivity.
+  destruct (forward_open _ _ _ _ _ _ _ _ _ _ _ _ _ _ _ Hm H) as [t' [ts3 [tks' [l' [Q [Hen [Hc ->]]]]]]].
+  destruct (target_call_spec _ _ _ _ _ _ _ _ _ _ _ _ _ _ _ _ _ _ _ Hm Hwf Hen Hc) as [TP TL].
+  exists t'. constructor; cbn [now al logs toks]; auto.
 Qed.
+
+(* the intermediate token states: after the fee, before the target *)
+Lemma mid_get st tok t1 t :
+  get_tokm (alist_set tok t1 (toks st)) t = if N.eqb t tok then t1 else get_tok st t.
+Proof. rewrite get_tokm_set. reflexivity. Qed.
